@@ -15,7 +15,9 @@ type Mismatch struct {
 	Detail string
 }
 
-func mm(rule, f string, a ...any) *Mismatch { return &Mismatch{Rule: rule, Detail: fmt.Sprintf(f, a...)} }
+func mm(rule, f string, a ...any) *Mismatch {
+	return &Mismatch{Rule: rule, Detail: fmt.Sprintf(f, a...)}
+}
 
 // Stats are plain counters local to one runner (merged by the caller).
 type Stats map[string]int64
